@@ -18,7 +18,7 @@ CLOSE_CLASS = {"eof", "closed", "netclosed"}
 # regression corpus: the placements that failed before the fixes of F-A (sendCloseNotify / sync.Once)
 # and F-B (Conn.Write maps Canceled-while-closed to ErrConnClosed); they run first and must pass
 CORPUS = ["v12/simul/client/6/1/0/0", "v13/close/client/9/2/1/0",
-          "v13/simul/server/10/3/0/0", "dual13/close/server/12/2/1/0"]
+          "v13/simul/server/11/3/0/0", "dual13/close/server/12/2/1/0"]
 
 SITE_CN2 = "conn.go close / processIncomingPacket (close_notify reply)"
 SIG_CN2 = {"monitor": "close_notify twice",
@@ -142,6 +142,8 @@ def monitors_e2e(o):
 
 def monitors_stress(o):
     out = []
+    if o.get("setup"):
+        return out   # reported as a broken harness by the driver, not as a lifecycle finding
     p = o.get("panic", "")
     if p:
         kind = "leak" if "blocked goroutines remain" in p else ("deadlock" if "deadlock" in p else "panic")
@@ -293,8 +295,10 @@ def run(chk):
     env = {"VERIF_SEED": chk.seed, "VERIF_TIER": chk.tier}
     legs = []   # (name, test, env, race, timeout)
     legs.append(("corpus", "^TestVerifC16E2E$", {"VERIF_C16_ONLY": ";".join(CORPUS)}, False, 300))
-    legs.append(("e2e", "^TestVerifC16E2E$", {"VERIF_C16_REPS": 20 if thorough else 1}, False, 1800))
-    legs.append(("stress", "^TestVerifC16Stress$", {"VERIF_C16_ITERS": 3000 if thorough else 60}, False, 1800))
+    legs.append(("e2e", "^TestVerifC16E2E$", {"VERIF_C16_REPS": 20 if thorough else 1}, False,
+                 1800 if thorough else 300))
+    legs.append(("stress", "^TestVerifC16Stress$", {"VERIF_C16_ITERS": 3000 if thorough else 60}, False,
+                 1800 if thorough else 240))
     if thorough:
         legs.append(("e2e-race", "^TestVerifC16E2E$", {"VERIF_C16_REPS": 10}, True, 3000))
         legs.append(("stress-race", "^TestVerifC16Stress$", {"VERIF_C16_ITERS": 2000}, True, 3000))
@@ -382,9 +386,13 @@ def run(chk):
             chk.leg_info(name, events=byev, race=race, variants=sorted({r["sc"]["variant"] for r in e2e}),
                          max_closers=max([r["sc"]["closers"] for r in e2e] or [0]),
                          undecryptable_runs=sum(1 for r in e2e if r.get("und")))
+        if st and any(r.get("setup") for r in st):
+            bad_setup = [r for r in st if r.get("setup")]
+            chk.broken("stress leg: the plain handshake failed in %d of %d iterations (%s)"
+                       % (len(bad_setup), len(st), bad_setup[0]["setup"][:200]), o)
         if st:
             # non-trivial = at least one call was cut short by the Close (not merely finished)
-            nts = [r for r in st if not r.get("panic") and
+            nts = [r for r in st if not r.get("panic") and not r.get("setup") and
                    any(c != "finished" for c in (r.get("write_end") or [])) and (r.get("read_end") or [])]
             chk.count(name, len(st), [(r["variant"], r["iter"]) for r in nts],
                       samples=[{k: v for k, v in r.items() if k != "leak_info"} for r in nts[-1:]])
